@@ -37,6 +37,16 @@ func OptAddWithTime(t time.Time) AddOpt {
 	}
 }
 
+// idInUse returns true if an in-use descriptor in f has the specified id.
+func (f *FileImage) idInUse(id uint32) bool {
+	for _, rd := range f.rds {
+		if rd.Used && rd.ID == id {
+			return true
+		}
+	}
+	return false
+}
+
 // AddObject adds a new data object and its descriptor into the specified SIF file.
 //
 // By default, the image modification time is set to the current time for non-deterministic images,
@@ -54,10 +64,12 @@ func (f *FileImage) AddObject(di DescriptorInput, opts ...AddOpt) error {
 		}
 	}
 
-	// Find an unused descriptor.
+	// Find an unused descriptor. The object ID is derived from the index of the descriptor, so skip
+	// any unused descriptor whose ID is already taken by an object elsewhere in the table (possible
+	// in images that were not numbered by this package.)
 	i := 0
 	for _, rd := range f.rds {
-		if !rd.Used {
+		if !rd.Used && !f.idInUse(uint32(i)+1) { //nolint:gosec // Bounded by descriptor count.
 			break
 		}
 		i++
